@@ -79,7 +79,8 @@ func classifyStall(stacks []stackInfo) (lockedUp bool, class, detail, harnessWhy
 			continue
 		}
 		if strings.HasPrefix(s.state, "running") || strings.HasPrefix(s.state, "runnable") {
-			// something can still run: slow, not locked up
+			// something can still run: slow, not locked up - unless it is the
+			// client itself that runs without getting anywhere (see spinningIn)
 			return false, "", "", ""
 		}
 		inHarnessSleep := false
@@ -193,6 +194,11 @@ func startStallObserver(prop string, seed uint64, plan func() []byte, out string
 					continue
 				}
 			}
+			if !locked && why == "" {
+				if ll, c, d := classifyLivelock(func() int64 { return atomic.LoadInt64(&c20Progress) }); ll {
+					locked, class, detail = true, c, d
+				}
+			}
 			if !locked {
 				if why == "" {
 					continue // slow, or stuck elsewhere: the watchdog decides
@@ -258,4 +264,69 @@ func stallPlanJSON() []byte {
 		}
 	}
 	return b
+}
+
+// spinningIn: the client functions in which bubble goroutines are running or
+// runnable right now (innermost client frame of each such goroutine).
+func spinningIn(stacks []stackInfo) map[string]string {
+	out := map[string]string{}
+	for _, s := range stacks {
+		if !strings.Contains(s.state, "synctest bubble") {
+			continue
+		}
+		if !strings.HasPrefix(s.state, "running") && !strings.HasPrefix(s.state, "runnable") {
+			continue
+		}
+		for _, f := range s.frames {
+			if strings.HasPrefix(f, "verif/sim.(*yieldState)") || strings.HasPrefix(f, "verif/sim.installYield") || strings.HasPrefix(f, "verif/sim.goid") || strings.HasPrefix(f, "verif/sim.yieldHash") || strings.Contains(f, "/pkg/util/simyield.") {
+				continue // a scheduling point on the way: transparent
+			}
+			if strings.HasPrefix(f, "verif/") {
+				break // below harness code: the harness is at work
+			}
+			if m := clientFrameRe.FindStringSubmatch(f); m != nil {
+				out[m[1]] = s.text
+				break
+			}
+		}
+	}
+	return out
+}
+
+// classifyLivelock: nothing has moved for the quiet period, and in three looks
+// one second apart some goroutine is running in the same client function
+// without a harness frame above it: the client spins (a goroutine that never
+// blocks keeps the fake clock, and with it everything else, from moving).
+func classifyLivelock(progress func() int64) (bool, string, string) {
+	p0 := progress()
+	common := spinningIn(allStacks())
+	for i := 0; i < 3 && len(common) > 0; i++ {
+		time.Sleep(time.Second)
+		if progress() != p0 {
+			return false, "", ""
+		}
+		next := spinningIn(allStacks())
+		for k := range common {
+			if _, ok := next[k]; !ok {
+				delete(common, k)
+			} else {
+				common[k] = next[k]
+			}
+		}
+	}
+	if len(common) == 0 {
+		return false, "", ""
+	}
+	best := ""
+	for k := range common {
+		if best == "" || k < best {
+			best = k
+		}
+	}
+	clean := strings.NewReplacer("/", ".", "(", "", ")", "", "*", "").Replace(best)
+	t := common[best]
+	if len(t) > 2500 {
+		t = t[:2500] + "..."
+	}
+	return true, "livelock-" + clean, fmt.Sprintf("a goroutine runs inside the client without making progress (no statement, no message, no scheduler step for the observation period) and keeps everything else from moving:\n%s", t)
 }
